@@ -246,6 +246,46 @@ func (e *storeEnv) namesBatch(tuples []*ketoapi.RelationTuple) map[string]any {
 		}
 	}
 	cmp("gRPC list", grpcGot)
+	// 4. a name stays readable as long as a relationship refers to it: other relationships that use the same names in OTHER
+	// positions (the subject-set object of one is the object of another, ...) are written and deleted again
+	var partners []*ketoapi.RelationTuple
+	for i, t := range tuples {
+		if i >= 40 {
+			break
+		}
+		if t.SubjectSet != nil {
+			partners = append(partners, &ketoapi.RelationTuple{Namespace: "n2", Object: t.SubjectSet.Object, Relation: "m", SubjectID: ptr(fmt.Sprintf("partner-%d", i))})
+		} else {
+			partners = append(partners, &ketoapi.RelationTuple{Namespace: "n1", Object: *t.SubjectID, Relation: "r", SubjectID: ptr(fmt.Sprintf("partner-%d", i))})
+		}
+		partners = append(partners, &ketoapi.RelationTuple{Namespace: "n2", Object: fmt.Sprintf("partner-o-%d", i), Relation: "m", SubjectID: ptr(t.Object)},
+			&ketoapi.RelationTuple{Namespace: "n2", Object: fmt.Sprintf("partner-p-%d", i), Relation: "m", SubjectSet: &ketoapi.SubjectSet{Namespace: "n1", Object: t.Object, Relation: "r"}})
+	}
+	for _, action := range []rts.RelationTupleDelta_Action{rts.RelationTupleDelta_ACTION_INSERT, rts.RelationTupleDelta_ACTION_DELETE} {
+		preq := &rts.TransactRelationTuplesRequest{}
+		for _, t := range partners {
+			preq.RelationTupleDeltas = append(preq.RelationTupleDeltas, &rts.RelationTupleDelta{Action: action, RelationTuple: t.ToProto()})
+		}
+		if _, err := e.rt.TransactRelationTuples(ctx, preq); err != nil {
+			return map[string]any{"error": "transact (partners): " + err.Error()}
+		}
+	}
+	afterGot := map[string]int{}
+	token = ""
+	for {
+		resp, err := e.rt.ListRelationTuples(ctx, &rts.ListRelationTuplesRequest{RelationQuery: &rts.RelationQuery{}, PageSize: 250, PageToken: token})
+		if err != nil {
+			bad = append(bad, "gRPC list: "+err.Error())
+			break
+		}
+		for _, pt := range resp.RelationTuples {
+			afterGot[apiString((&ketoapi.RelationTuple{}).FromProto(pt))]++
+		}
+		if token = resp.NextPageToken; token == "" {
+			break
+		}
+	}
+	cmp("list after other relationships that shared these names were written and deleted again", afterGot)
 	res["bad"] = bad
 	_ = context.Background
 	return res
